@@ -35,6 +35,7 @@ ToIntLike(v) ==
     [] v.t = "float" -> (CASE v.f = "inf" -> [ok |-> TRUE, n |-> BigPos]
                            [] v.f = "-inf" -> [ok |-> TRUE, n |-> 0 - BigPos]
                            [] v.f = "nan" -> [ok |-> FALSE, n |-> 0, oom |-> TRUE]   \* int(NaN) is platform defined
+                           [] "iz" \in DOMAIN v -> [ok |-> TRUE, n |-> IF v.iz.neg THEN 0 - BigPos ELSE BigPos]   \* a double >= 2^53 with its exact value: int(x), saturating at +-2^63 (func.go floatToInt)
                            [] OTHER -> [ok |-> FALSE, n |-> 0, oom |-> TRUE])
     [] OTHER -> [ok |-> FALSE, n |-> 0]
 IsOomInt(r) == "oom" \in DOMAIN r
@@ -101,9 +102,22 @@ NumDiv(a, b) ==
              ELSE VOom)
   ELSE VOom
 \* modulo: integers exactly; doubles are truncated to int first
+\* func.go floatToInt: int(x) for MinInt <= x < 2^63, MaxInt above, MinInt below (x: a double given with its exact integer value, a small int or a small dyadic rational)
+BnTwo63 == [neg |-> FALSE, d |-> <<9,2,2,3,3,7,2,0,3,6,8,5,4,7,7,5,8,0,8>>]
+BnFloatToIntZ(v) ==
+  IF v.t = "float" THEN
+       (IF ZCmp(v.iz, BnTwo63) >= 0 THEN ZSub(BnTwo63, ZFromInt(1))
+        ELSE IF ZCmp(v.iz, ZNeg(BnTwo63)) < 0 THEN ZNeg(BnTwo63)
+        ELSE v.iz)
+  ELSE ZFromInt(TruncDiv(NumerOf(v), DenomOf(v)))
+BnIsBigFloat(v) == v.t = "float" /\ "iz" \in DOMAIN v
 NumMod(a, b) ==
   IF IsInt(a) /\ IsInt(b) THEN
      (IF IntIsZero(b) THEN VTypeErr ELSE V1(FromZ(ZDivMod(ToZ(a), ToZ(b)).r)))
+  ELSE IF (BnIsBigFloat(a) \/ BnIsBigFloat(b)) /\ (BnIsBigFloat(a) \/ a.t \in {"num", "frac"}) /\ (BnIsBigFloat(b) \/ b.t \in {"num", "frac"}) THEN
+       \* the float64 branch of funcOpMod: both operands through floatToInt, then Go's truncated remainder
+       LET x == BnFloatToIntZ(a)  y == BnFloatToIntZ(b)
+       IN IF ZIsZero(y) THEN VTypeErr ELSE V1(FromZ(ZDivMod(x, y).r))
   ELSE IF a.t = "float" \/ b.t = "float" THEN
        (IF (a.t = "float" /\ a.f = "nan") \/ (b.t = "float" /\ b.f = "nan") THEN V1(NaN) ELSE VOom)
   ELSE IF a.t = "big" \/ b.t = "big" THEN VOom
